@@ -35,6 +35,11 @@ def call(fn):
         return {"exc": type(ex).__name__, "msg": str(ex)[:120]}
 
 
+def pyval(expr):
+    """a Python value written by the harness as an expression (literals, tuples, float('nan'))"""
+    return eval(expr, {"__builtins__": {}}, {"float": float})
+
+
 def identity(s):
     return s
 
@@ -73,8 +78,8 @@ with open(sys.argv[2]) as f, open(sys.argv[3], "a") as out:
         if c["entry"] == "apply":
             # Python objects that are not the image of a JSON text (non-string keys, tuples) are
             # given as Python literals; what they JSON-encode to is decided by the standard encoder
-            value = ast.literal_eval(c["value_py"]) if "value_py" in c else json.loads(c["value_json"])
-            data = ast.literal_eval(c["data_py"]) if "data_py" in c else json.loads(c["data_json"])
+            value = pyval(c["value_py"]) if "value_py" in c else json.loads(c["value_json"])
+            data = pyval(c["data_py"]) if "data_py" in c else json.loads(c["data_json"])
             ser = SER[c["ser"]]
             dumps = ser if ser is not None else json.dumps
             kw = {}
@@ -91,7 +96,12 @@ with open(sys.argv[2]) as f, open(sys.argv[3], "a") as out:
                 data_obj = data
             rec["value_text"] = dumps(value)
             rec["data_text"] = dumps(data_obj)      # what the wrapper must hand to the native module
+            import copy
+            before = copy.deepcopy(args)
             raw = call(lambda: jsonlogic_rs.apply(*args, deserializer=identity, **kw))
+            if not same(list(before), list(args)):
+                rec["decode_ok"] = False
+                rec["why"] = "the call modified its arguments"
             if c["deser"] == "default":
                 got = call(lambda: jsonlogic_rs.apply(*args, **kw))
                 if ("ret" in raw) != ("ret" in got) or raw.get("exc") != got.get("exc"):
